@@ -290,9 +290,12 @@ func (b *Body) freshRef(v ssa.Value) *T {
 			reg := parts[0]
 			cur := ft.region(st, reg)
 			xv := fmt.Sprintf("j!%d", ft.count("qv"))
-			if len(parts) == 2 && parts[1] == "[]" {
+			if len(parts) >= 2 && parts[1] == "[]" {
 				jv := fmt.Sprintf("j!%d", ft.count("qv"))
 				term := Sel(Sel(cur, L(xv)), L(jv))
+				for _, sl := range parts[2:] {
+					term = A(sl, term)
+				}
 				ft.fact(Forall([][2]string{{xv, "Ref"}, {jv, "Int"}}, Not(Eq(term, x.T)), []*T{term}))
 				continue
 			}
